@@ -60,8 +60,8 @@ def replay_f64(a, s, pol):
     c = s2[0] * pr[0] + s2[1] * pr[1] + s2[2] * pr[2]
     disc = b * b - 4.0 * 1.0 * c
     if disc < 0:
-        return 0.0, disc, "No"
-    if disc == 0:
+        inv, br = 0.5 * b, "No"          # since /repo 2b77618: the double root instead of an `imaginary` 0
+    elif disc == 0:
         inv, br = -(-b / 2.0), "One"
     else:
         sq = math.sqrt(disc)
@@ -144,7 +144,7 @@ def check_idx(ctx, obs, uniaxial):
         bad_zero = [p for p in "oe" if not (math.isfinite(vals[p]) and vals[p] > 0)]
         if bad_zero:
             nzero += 1
-            neg = all(rp[p][2] == "No" and rp[p][1] < 0 for p in bad_zero)
+            neg = all(rp[p][2].startswith("No") and rp[p][1] < 0 for p in bad_zero)
             rep["binary64_discriminant"] = rp["o"][1]
             rep["expected"] = "finite positive index between the smallest and largest principal index"
             if neg and ex.disc_h >= 0 and ex.D < 1e-9:
@@ -344,6 +344,11 @@ def correspondence(ctx, kept, walk_goals, budget):
         res2 = run_interval_cases(ctx, "C02r", IMPORTS, failed, shards=min(8, max(1, len(failed) // 4)), timeout=1500)
         ctx.cov["obligations"], ctx.cov["discharged"] = before[0], before[1] + sum(1 for v in res2.values() if v)
         res.update(res2)
+    if len(goals) >= 5 and not any(res.values()):
+        # nothing at all could be evaluated: the proof files the case tactics import do not compile (already reported by S3)
+        ctx.note("correspondence cases could not be evaluated: their imports do not compile")
+        ctx.proof_failures.append(("Cases/C02", "imports", "no correspondence goal could be evaluated (the proof files they import are broken)"))
+        return
     for cid, ok in res.items():
         if ok or cid not in meta:
             continue
@@ -429,13 +434,13 @@ def run(ctx):
                        "12..90 deg and for every orientation class (0, tiny, negative, > 90 deg, near optic axes).  distinct = distinct input bits")
     ctx.cov["clauses"] = {
         "ordinary = slow, extraordinary = fast Fresnel solution": "proved for the generated index_along over R (all positive indices, all angles, all unit directions); binary64: measured (1e-12 away from optic axes, conditioning-scaled next to them)",
-        "finite, positive": "proved over R (discriminant >= 0, both radicands > 0, dead `imaginary` exits); binary64: VALIDATED ONLY — fails next to optic axes (finding)",
+        "finite, positive": "proved over R for every answer of the quadratic solver incl. `no real root` (C02_index_along_any_solver_answer; F2 fixed in 2b77618); binary64 validated on near-axis rings every run",
         "between smallest and largest principal index": "proved",
         "unchanged under reversal / principal-plane mirrors": "proved",
         "uniaxial: n_o and 1/n^2 = cos^2/no^2 + sin^2/ne^2": "proved",
         "pump along z gets crystal-frame polar angles (theta, phi)": "proved (nalgebra's Euler matrix is transcribed, checked by interval goals)",
         "walk-off = atan(-(1/n) dn/dtheta), uniaxial closed form, sign, zero at 90 deg": "proved_partial (exact derivative; the central-difference error is measured to 1e-6 rad, not proved)",
-        "walk-off finite for every orientation": "proved over R (step > 0, n > 0); binary64: validated — fails next to optic axes (same finding)",
+        "walk-off finite for every orientation": "proved over R (step > 0, n > 0); binary64 validated (near-axis orientations included)",
         "Beam::refractive_index wrapper": "structure checked by the generator + bit-exact Rust-vs-Rust comparison"}
     return finish(ctx, assumptions=[
         "principal indices are taken as observed from get_indices (C01's subject); C02's theorems hold for all positive indices",
